@@ -1,4 +1,383 @@
-import RadixModel.Model.Ownership
+/-
+C05 — The stored ledger is always well-formed (PARTIAL).
+
+Full statement (properties.jsonl): after any history of committed transactions every stored internal
+object is owned by exactly one stored parent, stored values reference only global entities, every
+stored entity has state, every stored value conforms to its schema, every address's entity type
+matches the blueprint of the object stored there, and role assignments are valid.
+
+What is a theorem here (about `Model/Ownership.lean`, the transcription of the kernel's call-frame /
+substate-IO ownership rules, for ALL states, queues, fuels and diffs — no bounds):
+
+* `move_to_store_spec` / `move_subtree_closed`: one `move_node_from_heap_to_store` moves a whole
+  subtree or fails: afterwards the root is in the store, every node that changed device went
+  heap → store, has only global references, and all nodes it owns are in the store too; no substate
+  value, no other node and not the frame's owned set is touched (so no owner is gained or lost).
+* `take_nodes_exact`: a value's added owns are taken from the frame exactly once each (an owned node
+  cannot be put under two parents, nor under a parent while a substate of it is open).
+* `store_diff_checks`: a diff applied to a *store* substate succeeds only if it removes no owned node
+  (`CantDropNodeInStore`) and adds only global references, and then every added own is in the store.
+* `create_global_refs_global`, `write_store_refs_global`: the references written into a store
+  substate by `create_node` of a global node / `write_substate` on a store substate are all global.
+* `entity_class_matches_allocation`, `dedicated_global_type_identifies_blueprint`,
+  `dedicated_internal_type_identifies_blueprint`, `entity_type_matches_blueprint`: the blueprint →
+  entity-type table of `system/id_allocation.rs`, regenerated from the compiled tree on every run.
+
+What is NOT a theorem (explored on the implementation only):
+
+* the global invariant `forest_inv` over arbitrary op lists:
+    ∀ ops s, run ops init = .ok s →
+      (∀ n, Stored s n → ¬ isGlobal n → ∃! (p,k), p stored ∧ n ∈ owns (sub p k)) ∧
+      (∀ p k v, stored p → sub p k = v → ∀ r ∈ v.refs, isGlobal r) ∧ (every owned node exists).
+  It is FALSE for the kernel alone: `kernel_alone_not_sufficient` below is a machine-checked
+  counter-example on the model (reproduced on the real kernel by corpus/C05/c05-ghost.ops): the queue
+  loop of `move_node_from_heap_to_store` does not check for open substates of the moved descendants
+  (the code's own `TODO: Add locked substate checks … the system layer currently maintains the
+  invariant`), so a descendant that was opened through a since-removed non-global reference keeps a
+  heap-device handle after it was persisted.  The invariant therefore needs the side condition "no
+  node with an open substate is moved" (plus: an open handle mirrors its substate, which follows from
+  lock exclusivity, C13); proving the step lemmas under that discipline is not done here.  The
+  kernel-level oracle of harness area `c05` evaluates the full forest invariant on the real heap/track
+  after every call of every generated sequence (whose generator keeps that discipline), and area
+  `c05e` runs the repo's Kernel/System/Resource/RoleAssignment database checkers after every commit
+  of generated engine histories.
+* payload-vs-schema conformance and role validity: not modelled at all (checkers only, area `c05e`).
+-/
+import RadixModel.Lemmas.Ownership
+import RadixModel.Generated.C05
+
 namespace Radix.Own
-theorem placeholder_c05 : init.owned = [] := rfl
+
+open Radix.Locks (upd)
+open Radix.Generated.C05
+
+/-! ### moving a subtree into the store -/
+
+/-- `move_node_from_heap_to_store(n)` (for every state): on success the frame's owned set, the set of
+existing nodes and every substate value are unchanged; node `n` is in the store; every node either
+keeps its device or went heap → store, and then all its references are global and all its owned
+nodes are in the store. -/
+theorem move_to_store_spec (s s' : St) (n : Nat) (h : moveToStore s n = .ok s') :
+    s'.owned = s.owned ∧
+    (∀ p, s.node p = none → s'.node p = none) ∧
+    (∀ p nd, s.node p = some nd →
+      s'.node p = some nd ∨
+      (nd.dev = .heap ∧ s'.node p = some ⟨.store, nd.subs⟩ ∧ AllRefsGlobal nd.subs ∧
+        ChildrenStored s' nd.subs)) ∧
+    Stored s' n := by
+  obtain ⟨a, _, _, _, b, c, d⟩ := moveLoop_spec _ _ _ _ h
+  exact ⟨a, b, c, d n (by simp)⟩
+
+/-- Closure: if before the move every store node's owned nodes were in the store, the same holds
+after it — a persisted node never keeps a child on the heap. -/
+theorem move_subtree_closed (s s' : St) (n : Nat) (h : moveToStore s n = .ok s')
+    (hc : ∀ p subs, s.node p = some ⟨.store, subs⟩ → ChildrenStored s subs) :
+    ∀ p subs, s'.node p = some ⟨.store, subs⟩ → ChildrenStored s' subs := by
+  obtain ⟨_, hnone, hsome, _⟩ := move_to_store_spec s s' n h
+  -- stored nodes stay stored
+  have mono : ∀ o, Stored s o → Stored s' o := by
+    rintro o ⟨subs, ho⟩
+    rcases hsome o _ ho with h1 | ⟨h1, _⟩
+    · exact ⟨subs, h1⟩
+    · cases h1
+  intro p subs hp
+  cases hs : s.node p with
+  | none => rw [hnone p hs] at hp; cases hp
+  | some nd =>
+    rcases hsome p nd hs with h1 | ⟨_, h2, _, h4⟩
+    · rw [h1] at hp
+      cases hp
+      intro kv hkv o ho
+      exact mono o (hc p subs hs kv hkv o ho)
+    · rw [h2] at hp
+      cases hp
+      exact h4
+
+example : ∃ s s', moveToStore s 2 = .ok s' ∧ Stored s' 1 ∧ Stored s' 2 :=
+  ⟨{ init with node := fun p => if p = 1 then some ⟨.heap, [(0, ⟨[], [100]⟩)]⟩
+                                 else if p = 2 then some ⟨.heap, [(0, ⟨[1], []⟩)]⟩ else none,
+               created := [2, 1] }, _, rfl, ⟨_, rfl⟩, ⟨_, rfl⟩⟩
+
+/-! ### taking owned nodes -/
+
+/-- `take_node_internal` for all added owns of a diff: success iff-direction facts — every taken node
+was owned by the frame and had no open substate, no node is taken twice, and afterwards the frame
+owns exactly the nodes it owned before minus the taken ones (nothing else changes). -/
+theorem take_nodes_exact (xs : List Nat) (s s' : St) (h : takeAll xs s = .ok s') :
+    s'.node = s.node ∧ xs.Nodup ∧ (∀ x ∈ xs, x ∈ s.owned ∧ nodeIsLocked s x = false) ∧
+    (∀ y, y ∈ s'.owned ↔ (y ∈ s.owned ∧ y ∉ xs)) := by
+  obtain ⟨a, _, _, _, e, f, g⟩ := takeAll_spec xs s s' h
+  exact ⟨a, e, f, g⟩
+
+example : takeAll [1, 1] { init with owned := [1] } = .error .ownNotFound := rfl
+
+/-! ### diffs on store substates -/
+
+theorem moveAll_mono : ∀ (xs : List Nat) (s s' : St), moveAll xs s = .ok s' →
+    ∀ x, Stored s x → Stored s' x := by
+  intro xs
+  induction xs with
+  | nil => intro s s' h x hx; simp only [moveAll, Except.ok.injEq] at h; subst h; exact hx
+  | cons a r ih =>
+    intro s s' h x hx
+    simp only [moveAll] at h
+    split at h
+    · cases h
+    next s1 h1 =>
+      apply ih _ _ h
+      obtain ⟨subs, hx⟩ := hx
+      rcases (move_to_store_spec _ _ _ h1).2.2.1 x _ hx with h3 | ⟨h3, _⟩
+      · exact ⟨subs, h3⟩
+      · cases h3
+
+theorem moveAll_stored : ∀ (xs : List Nat) (s s' : St), moveAll xs s = .ok s' →
+    ∀ x ∈ xs, Stored s' x := by
+  intro xs
+  induction xs with
+  | nil => intro s s' _ x hx; cases hx
+  | cons a r ih =>
+    intro s s' h x hx
+    simp only [moveAll] at h
+    split at h
+    · cases h
+    next s1 h1 =>
+      rcases List.mem_cons.mp hx with e | hx'
+      · subst e
+        exact moveAll_mono _ _ _ h x (move_to_store_spec _ _ _ h1).2.2.2
+      · exact ih _ _ h x hx'
+
+/-- `process_substate_diff` on a STORE substate succeeds only if no owned node is removed, every added
+reference is global, and then every added owned node is in the store. -/
+theorem store_diff_checks (ao ro ar rr : List Nat) (s s' : St)
+    (h : processDiff .store ao ro ar rr s = .ok s') :
+    ro = [] ∧ (∀ r ∈ ar, isGlobal r = true) ∧ (∀ o ∈ ao, Stored s' o) := by
+  simp only [processDiff] at h
+  split at h
+  · cases h
+  next s1 _ =>
+    split at h
+    · cases h
+    · split at h
+      · cases h
+      next s4 h4 =>
+        split at h
+        · cases h
+        next hro =>
+          split at h
+          · cases h
+          next har =>
+            split at h
+            · cases h
+            · simp only [Except.ok.injEq] at h
+              subst h
+              refine ⟨?_, ?_, moveAll_stored _ _ _ h4⟩
+              · cases ro with
+                | nil => rfl
+                | cons a b => simp at hro
+              · intro r hr
+                have : (ar.any fun r => !isGlobal r) = false := by simpa using har
+                rw [List.any_eq_false] at this
+                simpa using this r hr
+
+example : processDiff .store [] [] [100] [] { init with stable := fun n => n == 100 } =
+    .ok (stableGlobals { init with stable := fun n => n == 100 } []) := rfl
+
+theorem mem_dedup (x : Nat) : ∀ l : List Nat, x ∈ dedup l ↔ x ∈ l := by
+  intro l
+  induction l with
+  | nil => simp [dedup]
+  | cons a r ih =>
+    simp only [dedup, List.mem_cons, List.mem_filter, bne_iff_ne, ne_eq, ih]
+    constructor
+    · rintro (h | ⟨h, _⟩)
+      · exact Or.inl h
+      · exact Or.inr h
+    · rintro (h | h)
+      · exact Or.inl h
+      · by_cases e : x = a
+        · exact Or.inl e
+        · exact Or.inr ⟨h, e⟩
+
+theorem processNew_store_refs : ∀ (vals : List (Nat × Val)) (s s' : St),
+    processNew .store vals s = .ok s' → AllRefsGlobal vals := by
+  intro vals
+  induction vals with
+  | nil => intro _ _ _ kv hkv; cases hkv
+  | cons a r ih =>
+    intro s s' h
+    obtain ⟨k, v⟩ := a
+    simp only [processNew] at h
+    split at h
+    · cases h
+    · split at h
+      · cases h
+      next s1 h1 =>
+        have hg := (store_diff_checks _ _ _ _ _ _ h1).2.1
+        intro kv hkv
+        rcases List.mem_cons.mp hkv with e | hkv'
+        · subst e
+          intro x hx
+          exact hg x ((mem_dedup x v.refs).mpr hx)
+        · exact ih _ _ h kv hkv'
+
+/-- `create_node` of a GLOBAL node: on success the node is in the store with exactly the given
+substates and none of them references a non-global node. -/
+theorem create_global_refs_global (s s' : St) (n : Nat) (vals : List (Nat × Val))
+    (hg : isGlobal n = true) (h : create s n vals = .ok s') :
+    s'.node n = some ⟨.store, vals⟩ ∧ AllRefsGlobal vals := by
+  simp only [create, hg, if_true] at h
+  split at h
+  · cases h
+  · split at h
+    · cases h
+    · split at h
+      · cases h
+      next s1 h1 =>
+        simp only [Except.ok.injEq] at h
+        subst h
+        exact ⟨by simp [upd], processNew_store_refs _ _ _ h1⟩
+
+example : ∃ s', create { init with stable := fun n => n == 101 } 100 [(0, ⟨[], [101]⟩)] = .ok s' :=
+  ⟨_, rfl⟩
+
+/-- `write_substate` through a handle on a STORE substate: on success every reference of the written
+value that the handle did not already hold is global, and no owned node was dropped from it. -/
+theorem write_store_refs_global (s s' : St) (h : Nat) (v : Val) (o : Open)
+    (ho : findOpen h s.opens = some o) (hd : o.dev = .store) (hw : writeSub s h v = .ok s') :
+    (∀ r ∈ v.refs, r ∈ o.refs ∨ isGlobal r = true) ∧ (∀ x ∈ o.owns, x ∈ v.owns) := by
+  simp only [writeSub, ho] at hw
+  split at hw
+  · cases hw
+  · split at hw
+    · cases hw
+    · split at hw
+      · cases hw
+      next s1 h1 =>
+        rw [hd] at h1
+        obtain ⟨hro, har, _⟩ := store_diff_checks _ _ _ _ _ _ h1
+        constructor
+        · intro r hr
+          by_cases hc : r ∈ o.refs
+          · exact Or.inl hc
+          · right
+            apply har
+            simp only [List.mem_filter, Bool.not_eq_eq_eq_not, Bool.not_true]
+            exact ⟨(mem_dedup r v.refs).mpr hr, by simpa using hc⟩
+        · intro x hx
+          by_cases hc : x ∈ v.owns
+          · exact hc
+          · exfalso
+            have : x ∈ o.owns.filter (fun x => !v.owns.contains x) := by
+              simp only [List.mem_filter, Bool.not_eq_eq_eq_not, Bool.not_true]
+              exact ⟨hx, by simpa using hc⟩
+            rw [hro] at this
+            cases this
+
+/-! ### the kernel alone does not maintain the forest -/
+
+/-- A store node that owns a heap node (checked over the given node ids). -/
+def storeOwnsHeap (s : St) (ids : List Nat) : Bool :=
+  ids.any fun p => match s.node p with
+    | some ⟨.store, subs⟩ => subs.any fun kv => kv.2.owns.any fun o =>
+        match s.node o with
+        | some ⟨.heap, _⟩ => true
+        | _ => false
+    | _ => false
+
+/-- the call sequence of corpus/C05/c05-ghost.ops -/
+def ghostOps : List Op :=
+  [ .create 5 [(0, ⟨[], []⟩)], .create 6 [(0, ⟨[], [5]⟩)], .create 7 [(0, ⟨[5], []⟩)],
+    .openSub 6 0 true, .openSub 5 0 true, .write 0 ⟨[], []⟩, .close 0,
+    .create 100 [(0, ⟨[7], []⟩)], .write 1 ⟨[6], []⟩, .close 1 ]
+
+/-- Machine-checked counter-example: ten successful kernel calls after which a node that is already
+persisted (5, under global 100) owns a heap node (6) that no frame owns.  So the forest invariant is
+not a theorem about the kernel calls alone; it needs the system-layer discipline that no node with an
+open substate is moved to the store. -/
+theorem kernel_alone_not_sufficient :
+    (match run ghostOps init with
+      | .ok s => storeOwnsHeap s [5, 6, 7, 100] && s.owned.isEmpty
+      | .error _ => false) = true := by
+  decide
+
+/-! ### blueprint → entity type (system/id_allocation.rs, regenerated table) -/
+
+/-- Every blueprint is given a *global* entity type when allocated as a global object and an
+*internal* one when allocated as an owned object (`EntityType::is_global/is_internal` as compiled). -/
+theorem entity_class_matches_allocation :
+    ∀ row ∈ entityTable, row.2.2.1 ∈ globalEntityBytes ∧ row.2.2.2 ∈ internalEntityBytes := by
+  decide +kernel
+
+def dedicatedGlobalInjective : Bool :=
+  entityTable.all fun a => entityTable.all fun b =>
+    a.2.2.1 == etGlobalGenericComponent || a.2.2.1 != b.2.2.1 || (a.1 == b.1 && a.2.1 == b.2.1)
+
+def dedicatedInternalInjective : Bool :=
+  entityTable.all fun a => entityTable.all fun b =>
+    a.2.2.2 == etInternalGenericComponent || a.2.2.2 != b.2.2.2 || (a.1 == b.1 && a.2.1 == b.2.1)
+
+theorem dedicatedGlobalInjective_true : dedicatedGlobalInjective = true := by decide +kernel
+theorem dedicatedInternalInjective_true : dedicatedInternalInjective = true := by decide +kernel
+
+/-- A dedicated (non-generic) global entity type is given to exactly one (package, blueprint): the
+entity-type byte of a global address identifies the native blueprint stored there. -/
+theorem dedicated_global_type_identifies_blueprint :
+    ∀ a ∈ entityTable, ∀ b ∈ entityTable, a.2.2.1 = b.2.2.1 → a.2.2.1 ≠ etGlobalGenericComponent →
+      a.1 = b.1 ∧ a.2.1 = b.2.1 := by
+  intro a ha b hb e hne
+  have h := dedicatedGlobalInjective_true
+  simp only [dedicatedGlobalInjective, List.all_eq_true] at h
+  have := h a ha b hb
+  simp only [Bool.or_eq_true, bne_iff_ne, ne_eq, beq_iff_eq, Bool.and_eq_true] at this
+  rcases this with (h1 | h1) | h1
+  · exact absurd h1 hne
+  · exact absurd e h1
+  · exact h1
+
+/-- The same for internal entity types (the two vault types). -/
+theorem dedicated_internal_type_identifies_blueprint :
+    ∀ a ∈ entityTable, ∀ b ∈ entityTable, a.2.2.2 = b.2.2.2 → a.2.2.2 ≠ etInternalGenericComponent →
+      a.1 = b.1 ∧ a.2.1 = b.2.1 := by
+  intro a ha b hb e hne
+  have h := dedicatedInternalInjective_true
+  simp only [dedicatedInternalInjective, List.all_eq_true] at h
+  have := h a ha b hb
+  simp only [Bool.or_eq_true, bne_iff_ne, ne_eq, beq_iff_eq, Bool.and_eq_true] at this
+  rcases this with (h1 | h1) | h1
+  · exact absurd h1 hne
+  · exact absurd e h1
+  · exact h1
+
+/-- The specification of the table: the thirteen native global blueprints and the two vault blueprints
+have their dedicated entity types, everything else is a generic component (package index, blueprint
+index as in `Generated.C05.packageNames` / `blueprintNames`). -/
+def expectedGlobal (pkg bp : Nat) : Nat :=
+  match pkg, bp with
+  | 0, 0 => etGlobalPackage
+  | 1, 1 => etGlobalFungibleResourceManager
+  | 1, 2 => etGlobalNonFungibleResourceManager
+  | 4, 11 => etGlobalConsensusManager
+  | 4, 12 => etGlobalValidator
+  | 5, 13 => etGlobalAccessController
+  | 2, 14 => etGlobalAccount
+  | 3, 15 => etGlobalIdentity
+  | 6, 16 => etGlobalOneResourcePool
+  | 6, 17 => etGlobalTwoResourcePool
+  | 6, 18 => etGlobalMultiResourcePool
+  | 14, 19 => etGlobalAccountLocker
+  | _, _ => etGlobalGenericComponent
+
+def expectedInternal (pkg bp : Nat) : Nat :=
+  match pkg, bp with
+  | 1, 3 => etInternalFungibleVault
+  | 1, 4 => etInternalNonFungibleVault
+  | _, _ => etInternalGenericComponent
+
+theorem entity_type_matches_blueprint :
+    ∀ row ∈ entityTable,
+      row.2.2.1 = expectedGlobal row.1 row.2.1 ∧ row.2.2.2 = expectedInternal row.1 row.2.1 := by
+  decide +kernel
+
+theorem table_is_complete : entityTable.length = nPackages * nBlueprints := by decide +kernel
+
 end Radix.Own
